@@ -190,6 +190,86 @@ fn gen_history(rng: &mut StdRng, nops: usize, delete_all: bool, avoid_f0: bool, 
     ops
 }
 
+/// Producer threads call add_document / delete_term concurrently on one writer; the stamp_drawn
+/// hook (between drawing the opstamp and publishing the operation) is used as a seeded pause
+/// point so that operations really overlap.  Every call is logged at its start and at its end.
+fn run_producers(tracer: &Tracer, rng: &mut StdRng, tag: Value) {
+    use std::sync::atomic::{AtomicU64, Ordering};
+    use std::sync::Arc;
+    tracer.reset_canon();
+    let mut cfg = Cfg::default();
+    cfg.threads = pick(rng, &[1usize, 2, 4]);
+    cfg.flush_after = pick(rng, &[1u32, 1, 2, 3, 0]);
+    cfg.merge = pick(rng, &["none", "any2"]).to_string();
+    tracer.emit(json!({"ev":"reset","cfg":cfg.to_json(),"tag":tag}));
+    let mut w = World::new_quiet(tracer, &cfg, true);
+    // pause point: a seeded subset of stamp draws sleeps a little before publishing
+    let pause_seed = Arc::new(AtomicU64::new(rng.random::<u64>() | 1));
+    let ps = pause_seed.clone();
+    let extra: Arc<dyn Fn(&'static str, &Value) + Send + Sync> = Arc::new(move |name, _v| {
+        if name == "stamp_drawn" {
+            let x = ps.fetch_add(0x9E3779B97F4A7C15, Ordering::SeqCst);
+            let h = (x ^ (x >> 29)).wrapping_mul(0xBF58476D1CE4E5B9);
+            if h % 3 == 0 {
+                std::thread::sleep(std::time::Duration::from_micros(200 + h % 1500));
+            } else if h % 3 == 1 {
+                std::thread::yield_now();
+            }
+        }
+    });
+    install_sink(tracer, w.regs.clone(), Some(extra));
+    w.exec(&json!({"op":"new_writer"}));
+    let terms = ["a", "b", "c"];
+    let next_id = Arc::new(AtomicU64::new(1));
+    let epochs = rng.random_range(2..5);
+    for _ in 0..epochs {
+        let nprod = rng.random_range(2..5usize);
+        let seeds: Vec<u64> = (0..nprod).map(|_| rng.random()).collect();
+        {
+            let writer = w.writer.as_ref().unwrap();
+            let f = &w.f;
+            std::thread::scope(|s| {
+                for (pi, sd) in seeds.iter().enumerate() {
+                    let tr = tracer.clone();
+                    let nid = next_id.clone();
+                    let sd = *sd;
+                    std::thread::Builder::new().name(format!("producer{pi}")).spawn_scoped(s, move || {
+                        let mut r = StdRng::seed_from_u64(sd);
+                        for _ in 0..r.random_range(2..6) {
+                            if r.random_bool(0.6) {
+                                let id = nid.fetch_add(1, Ordering::SeqCst);
+                                let t = terms[r.random_range(0..terms.len())];
+                                let c = tr.emit(json!({"ev":"pcall","p":pi,"k":"add","id":id,"t":t}));
+                                let mut d = tantivy::TantivyDocument::default();
+                                d.add_u64(f.id, id);
+                                d.add_text(f.t, t);
+                                d.add_i64(f.v, 0);
+                                d.add_text(f.body, vh::core::body_of(id, t));
+                                let res = writer.add_document(d);
+                                tr.emit(json!({"ev":"pret","p":pi,"k":"add","id":id,"t":t,"ok":res.is_ok(),"opstamp":res.ok(),"call":c}));
+                            } else {
+                                let t = terms[r.random_range(0..terms.len())];
+                                let c = tr.emit(json!({"ev":"pcall","p":pi,"k":"del","t":t}));
+                                let op = writer.delete_term(tantivy::Term::from_field_text(f.t, t));
+                                tr.emit(json!({"ev":"pret","p":pi,"k":"del","t":t,"ok":true,"opstamp":op,"call":c}));
+                            }
+                        }
+                    }).unwrap();
+                }
+            });
+        }
+        if rng.random_bool(0.8) {
+            w.exec(&json!({"op":"commit"}));
+        } else {
+            w.exec(&json!({"op":"rollback"}));
+        }
+    }
+    w.exec(&json!({"op":"commit"}));
+    w.exec(&json!({"op":"wait_merges"}));
+    tantivy::verif::set_sink(None);
+    tracer.emit(json!({"ev":"end","listing":w.dir.listing(),"locks":w.dir.lock_files()}));
+}
+
 fn main() {
     let a = Args::parse();
     let mode = a.pos.get(0).cloned().unwrap_or_default();
@@ -216,6 +296,15 @@ fn main() {
                 cfg.sorted = if so == "mix" { pick(&mut rng, &["", "", "v_asc", "v_desc"]).to_string() } else { so };
                 let ops = gen_history(&mut rng, nops, a.flag("delete-all"), avoid.contains("f0"), &["a", "b", "c"], a.flag("term-deletes"));
                 run_history(&tracer, &cfg, &ops, storage, &json!({"seed":seed,"run":r}));
+            }
+        }
+        "producers" => {
+            // concurrent producer threads on a shared writer (add / delete take &self), commit in between
+            let seed = a.num("seed", 1);
+            let runs = a.num("runs", 10);
+            let mut rng = StdRng::seed_from_u64(seed);
+            for r in 0..runs {
+                run_producers(&tracer, &mut rng, json!({"seed":seed,"run":r,"producers":true}));
             }
         }
         "replay" => {
